@@ -108,8 +108,8 @@ def rule_MP2(rep, prog, q):
                     "%s can advance to the next target queue (or reach the callout) without acquiring the current level" % name, sample={"fn": name})
         # kind chosen by the width of the level being acquired
         for a in acqs:
-            if "_try_" not in a.callee:
-                continue
+            if "_try_" not in a.callee or name != "_dispatch_sync_recurse":
+                continue      # the and_wait walk carries the kind in dc_flags (first level: the caller's; next levels: C03-MP11)
             barrier = "barrier" in a.callee
             tgt = root_ptr(fn, a.ops[0])
             c0 = paths.PathCtx(fn)
@@ -516,12 +516,17 @@ def rule_MP11(rep, prog, q):
                    "rebased thread frame was popped (the queue really draining, not the submitted-to queue)", floor=2)
     fn = prog.fn("_dispatch_async_and_wait_recurse")
     rep.saw(fn)
-    one = calls_named(fn, "_dispatch_async_and_wait_recurse_one")
+    # the two loop-carried values of the walk: the level (starts as parameter 0, top_dq) and its lock kind (starts as parameter 3, the caller's flags)
+    def loop_phi(argno):
+        c = [p_ for p_ in fn.all_insts() if p_.op == "phi" and any(tuple(v[:2]) == ("a", argno) for v, frm in p_.ops) and fn.inst_reaches(p_, p_)]
+        return c[0] if len(c) == 1 else None
+    dq_phi, fl_phi = loop_phi(0), loop_phi(3)
+    one = [fl_phi] if fl_phi is not None and dq_phi is not None else []
     sts = [st for st in fn.all_insts() if st.op == "store" and "dc_flags" in prog.fields(st) and root_ptr(fn, st.d["ptr"]["base"]) == ("a", 1)]
     if len(one) != 1 or not sts:
-        rep.unknown(rid, "anchor vanished in _dispatch_async_and_wait_recurse (acquire calls=%d, dc_flags stores=%d)" % (len(one), len(sts)))
+        rep.unknown(rid, "anchor vanished in _dispatch_async_and_wait_recurse (loop-carried level / kind found=%d, dc_flags stores=%d)" % (len(one), len(sts)))
     else:
-        ph = fn.inst(one[0].ops[2])
+        ph = fl_phi
         nxt = [tuple(v[:2]) for v, frm in ph.ops if fn.inst(v) is not None] if (ph is not None and ph.op == "phi") else []
         for st in sts:
             rep.require(rid, tuple(st.ops[0][:2]) in nxt, st.loc, fn.name, "waiter-flags-of-previous-level",
@@ -531,7 +536,7 @@ def rule_MP11(rep, prog, q):
     if len(one) == 1:
         # ... and that kind is chosen from the width of the level it will be used on: the queue whose dq_width is tested is the queue that
         # becomes `dq` for the next iteration (the target just stepped to), not the level already acquired
-        dqphi = fn.inst(one[0].ops[0])
+        dqphi = dq_phi
         nextq = {root_ptr(fn, v) for v, frm in dqphi.ops} - {("a", 0)} if (dqphi is not None and dqphi.op == "phi") else set()
         wts = []
         for i in fn.all_insts():
